@@ -138,7 +138,7 @@ Proof. exact copy_into_view_writes_source. Qed.
 Print Assumptions C18_copy_into_view_writes_source.
 
 Theorem C18_default_to_same_returns_self :
-  forall st x p, get_pt st x = Some p -> step st (ODefaultTo x (pt_dflt p)) = (st, ORefs [x]).
+  forall st x p perm, get_pt st x = Some p -> step st (ODefaultTo x (pt_dflt p) perm) = (st, ORefs [x]).
 Proof. exact default_to_same_returns_self. Qed.
 Print Assumptions C18_default_to_same_returns_self.
 
